@@ -60,7 +60,7 @@ def gen(rng, tier):
             e = prm["type"]["enc"]
             cals = ([e.get("default")] if e.get("t") == "num" else []) + ([cx["cal"] for cx in (e.get("context") or [])] if e.get("t") == "num" else [])
             for cal in cals:
-                if cal and cal[0] == "spline" and rng.random() < 0.4:
+                if cal and cal[0] == "spline" and rng.random() < 0.8:
                     rng.shuffle(cal[3])
         ns = rng.choice([("prefix", "xtce"), defgen.rnd_prefix(rng), ("default",), ("none",)])
         try:
